@@ -584,7 +584,7 @@ func guard(ck checks, body, ind string, fc *fctx) string {
 		panic(untr{"a partial operation occurs in a function that does not return Arg"})
 	}
 	fc.panics = true
-	return fmt.Sprintf("if %s then\n%s  %s\n%selse .panic", strings.Join(ck, " && "), ind, strings.TrimLeft(body, " "), ind)
+	return fmt.Sprintf("%sif %s then\n%s  %s\n%selse .panic", ind, strings.Join(ck, " && "), ind, strings.TrimLeft(body, " "), ind)
 }
 
 // finish resolves the result type of an Arg-returning definition: `Out2` (val | nil) when no panic leaf occurs in it or in
